@@ -388,8 +388,8 @@ def key_in_nested_dict(nested_dict: Dict[str, Any], target: str) -> bool:
     for k, v in nested_dict.items():
         if k == target:
             return True
-        if isinstance(v, dict):
-            return key_in_nested_dict(v, target)
+        if isinstance(v, dict) and key_in_nested_dict(v, target):
+            return True
     return False
 
 
